@@ -24,7 +24,7 @@ META = {
                   "PauliSentence has no hamiltonian() export on this tree (only operation()); LinearCombination inputs to pauli_sentence are covered.",
     "shards": {"quick": 2, "thorough": 8},
     "budget_s": {"quick": 50, "thorough": 220},
-    "min_evals": {"quick": 5000, "thorough": 200000},
+    "min_evals": {"quick": 5000, "thorough": 100000},
     "deciding": ["pauli.to_mat", "pauli.arith", "pauli.commutator", "pauli.operation", "pauli.sentence_roundtrip", "pauli.decompose_roundtrip"],
     "rule": "case = two random sentences + wire order; distinct = distinct (terms, wire order); non-trivial = both sentences non-empty, at least "
             "3 words in total and the two sentences share a wire",
